@@ -684,7 +684,7 @@ class Emitter:
         """value-position translation"""
         k = e[0]
         cfg = self.cfg
-        if k in ("tfield", "field", "index") and self.rust_text(e) in cfg.get("exprs", {}):
+        if k in ("tfield", "field", "index", "bin") and self.rust_text(e) in cfg.get("exprs", {}):
             return cfg["exprs"][self.rust_text(e)]
         if k == "raw":
             return e[1]
@@ -1033,6 +1033,12 @@ class Emitter:
             return f"let {target} := {val}\n{cont(scope)}"
         if kind == "expr":
             _, e, semi = s
+            if any(self.rust_text(e).startswith(pre) for pre in self.cfg.get("ignore_stmts", [])):
+                # a statement the table declares irrelevant to the value (I/O on the content being added)
+                return cont(scope)
+            if e[0] == "block" and semi is not None and (rest or k is not None or kv is not None) and self.cfg.get("ignore_stmts") \
+                    and all(st[0] == "expr" and any(self.rust_text(st[1]).startswith(pre) for pre in self.cfg["ignore_stmts"]) for st in e[1] if st[0] != "empty"):
+                return cont(scope)
             if self.rust_text(e) in self.cfg.get("push_stmts", {}):
                 # `vec.push(x)` on a list the table names: append
                 var, val = self.cfg["push_stmts"][self.rust_text(e)]
